@@ -85,6 +85,7 @@ pub fn generate(prop: &str, tier: &str, seed: u64, outdir: &str) {
             std::process::exit(2);
         }
     }
+    gen_glue_directed(prop, &mut out, thorough);
     out.w.flush().unwrap();
     let samples: Vec<String> = out.samples.iter().map(|s| json_str(s)).collect();
     let exh: Vec<String> = out.exhaustive.iter().map(|s| json_str(s)).collect();
@@ -1405,6 +1406,240 @@ fn gen_big_tables(out: &mut Out, rng: &mut Rng, sizes: &[usize]) {
         out.req("snapshot", "snapshot".into());
         out.req("reopen", format!("reopen {}", crate::hist::CLOSE_MODES[(si + 1) % 3]));
         out.req("snapshot", "snapshot".into());
+    }
+}
+
+/// the glue around the core, each piece on its least-travelled path (no random choice here, so the
+/// requests before these stay what they were): see DESIGN.md II.13
+fn gen_glue_directed(prop: &str, out: &mut Out, thorough: bool) {
+    use crate::decode::*;
+    let b = |x: E| Box::new(x);
+    let col = |n: &str| E::Col(n.to_string());
+    let int = |n: i32| E::Lit(V::Int(n));
+    // expressions whose builders might "simplify": a truth value used as a VALUE
+    let exprs = |a: &str, bb: &str, s: &str| -> Vec<E> {
+        vec![
+            E::Bin("and", b(E::Bin("band", b(col(a)), b(int(4)))), b(E::Bin("band", b(col(a)), b(int(2))))),
+            E::Bin("and", b(col(a)), b(col(bb))),
+            E::Bin("and", b(col(s)), b(col(a))),
+            E::Bin("and", b(E::Bin("add", b(col(a)), b(int(1)))), b(E::Bin("sub", b(col(bb)), b(int(3))))),
+            E::Bin("eq", b(E::Un("not", b(E::Un("not", b(col(a)))))), b(E::Un("not", b(E::Un("not", b(col(bb))))))),
+            E::Bin("eq", b(E::Bin("add", b(E::Un("not", b(E::Un("not", b(col(a)))))), b(E::Un("not", b(E::Un("not", b(col(bb)))))))), b(int(2))),
+            E::Bin("eq", b(E::Un("bitnot", b(E::Un("bitnot", b(col(a)))))), b(col(bb))),
+            E::Bin("eq", b(E::Un("neg", b(E::Un("neg", b(col(a)))))), b(col(bb))),
+            E::Bin("eq", b(E::Un("not", b(E::Un("not", b(col(s)))))), b(int(1))),
+            E::Bin("eq", b(E::Bin("and", b(int(1)), b(col(a)))), b(col(bb))),
+            E::Bin("eq", b(E::Bin("or", b(int(0)), b(col(a)))), b(col(bb))),
+            E::Bin("eq", b(E::Bin("and", b(E::Lit(V::Str("x".into()))), b(col(a)))), b(int(1))),
+            E::Bin("eq", b(E::Bin("or", b(E::Lit(V::Null)), b(col(s)))), b(int(1))),
+            E::Bin("eq", b(E::Bin("and", b(col(a)), b(int(1)))), b(col(bb))),
+            E::Bin("add", b(E::Bin("and", b(int(7)), b(col(a)))), b(E::Bin("or", b(int(0)), b(col(bb))))),
+            E::Bin("and", b(E::Bin("and", b(int(1)), b(col(a)))), b(col(bb))),
+        ]
+    };
+    let flag_table = |out: &mut Out, name: &str| {
+        let t = hex_of_str(name);
+        out.req("create_table", format!("create_table {t} {}:i16:K:-:-:-:- {}:i16:N:-:-:-:- {}:i16:N:-:-:-:- {}:s0:N:-:-:-:-", hex_of_str("K"), hex_of_str("A"), hex_of_str("B"), hex_of_str("S")));
+        let mut rows = vec![];
+        for k in 0..10i32 {
+            let a = if k == 8 { "N".to_string() } else { format!("I{}", k % 8) };
+            let bv = if k == 9 { "N".to_string() } else { format!("I{}", [0, 1, 2, 4, 4, 1, 6, 7, 3, 5][k as usize]) };
+            let sv = match k % 3 { 0 => "N".to_string(), 1 => format!("S{}", hex_of_str("x")), _ => format!("S{}", hex_of_str("0")) };
+            rows.push(format!("4 I{k} {a} {bv} {sv}"));
+        }
+        out.req("insert", format!("insert {t} {} {}", rows.len(), rows.join(" ")));
+    };
+    match prop {
+        "C12" | "C13" | "C19" | "C01" | "C03" => {
+            out.req("new", "new 0".into());
+            flag_table(out, "Fl");
+            flag_table(out, "Gl");
+            let (fl, gl) = (hex_of_str("Fl"), hex_of_str("Gl"));
+            for e in exprs("A", "B", "S") {
+                out.req("glue_select", format!("select SEL 0 {} T {fl}", e.to_line()));
+                out.req("glue_fmt", format!("fmt {}", e.to_line()));
+            }
+            if prop == "C12" || prop == "C13" {
+                for e in exprs("Fl.A", "Gl.B", "Gl.S") {
+                    for j in ["IJ", "LJ"] {
+                        out.req("glue_join", format!("select SEL 0 - {j} SEL 0 - T {fl} SEL 0 - T {gl} {}", e.to_line()));
+                    }
+                }
+            }
+            for (i, e) in exprs("A", "B", "S").into_iter().enumerate() {
+                // the same conditions restrict an update and a delete (a top-level AND goes in as two with() calls)
+                out.req("glue_update", format!("update {fl} 1 {} I{} {}", hex_of_str("B"), 100 + i, e.to_line()));
+                out.req("glue_select", format!("select SEL 0 - T {fl}"));
+                out.req("glue_delete", format!("delete {gl} {}", e.to_line()));
+                out.req("glue_select", format!("select SEL 0 - T {gl}"));
+                if i % 4 == 3 {
+                    out.req("drop_table", format!("drop_table {gl}"));
+                    flag_table(out, "Gl");
+                }
+            }
+            out.req("snapshot", "snapshot".into());
+            out.req("reopen", "reopen into_inner".into());
+            out.req("snapshot", "snapshot".into());
+            if prop == "C01" {
+                for k in 0..(if thorough { 18 } else { 4 }) {
+                    out.req("file_edit", format!("@file_edit {k}"));
+                }
+            }
+        }
+        "C18" | "C10" => {
+            for k in 0..(if thorough { 18 } else { 6 }) {
+                out.req("file_edit", format!("@file_edit {k}"));
+            }
+        }
+        "C07" | "C05" => {
+            // key columns that do not lead the column list
+            for (ti, layout) in [vec![false, true], vec![true, false, true], vec![false, false, true], vec![false, true, true], vec![true, false]].iter().enumerate() {
+                out.req("new", format!("new {}", ti % 3));
+                let t = hex_of_str("KT");
+                let cols: Vec<String> = layout.iter().enumerate().map(|(j, key)| {
+                    let mut c = ColDef::new(&format!("C{j}"), if j % 2 == 0 { CT::I16 } else { CT::Str(8) });
+                    c.key = *key;
+                    c.nullable = !*key;
+                    c.tok()
+                }).collect();
+                out.req("create_table", format!("create_table {t} {}", cols.join(" ")));
+                let row = |r: i32| -> String {
+                    let vals: Vec<String> = layout.iter().enumerate().map(|(j, key)| {
+                        if *key { if j % 2 == 0 { format!("I{}", 10 - r) } else { format!("S{}", hex_of_str(&format!("k{}", 9 - r))) } }
+                        else if j % 2 == 0 { "I7".to_string() } else { format!("S{}", hex_of_str("same")) }
+                    }).collect();
+                    format!("{} {}", vals.len(), vals.join(" "))
+                };
+                for r in 1..=4 {
+                    out.req("key_not_leading", format!("insert {t} 1 {}", row(r)));
+                }
+                out.req("key_not_leading", format!("insert {t} 1 {}", row(2)));
+                out.req("key_not_leading", format!("insert {t} 2 {} {}", row(5), row(6)));
+                let data = layout.iter().position(|k| !*k).unwrap();
+                let keyc = layout.iter().position(|k| *k).unwrap();
+                let newv = if data % 2 == 0 { "I8".to_string() } else { format!("S{}", hex_of_str("other")) };
+                let keyv = if keyc % 2 == 0 { "I7".to_string() } else { format!("S{}", hex_of_str("k6")) };
+                out.req("key_not_leading", format!("update {t} 1 {} {newv} eq C{} {keyv}", hex_of_str(&format!("C{data}")), hex_of_str(&format!("C{keyc}"))));
+                out.req("key_not_leading", format!("select SEL 0 - T {t}"));
+                out.req("snapshot", "snapshot".into());
+                out.req("reopen", format!("reopen {}", crate::hist::CLOSE_MODES[ti % 3]));
+                out.req("snapshot", "snapshot".into());
+                out.req("key_not_leading", format!("insert {t} 1 {}", row(7)));
+                out.req("key_not_leading", format!("insert {t} 1 {}", row(7)));
+                out.req("snapshot", "snapshot".into());
+            }
+        }
+        "C09" => {
+            // value ranges that no number satisfies: given backwards, beyond the column type
+            let mk = |name: &str, ct: CT, key: bool, range: Option<(i32, i32)>| {
+                let mut c = ColDef::new(name, ct);
+                c.key = key;
+                c.nullable = !key;
+                c.range = range;
+                c
+            };
+            let cols = vec![mk("K", CT::I16, true, None), mk("V", CT::I16, false, Some((10, 1))), mk("W", CT::I16, false, Some((40000, 50000))), mk("X", CT::I32, false, Some((5, 5))), mk("Y", CT::I32, false, Some((i32::MAX, i32::MIN)))];
+            let battery = |out: &mut Out| {
+                let t = hex_of_str("R");
+                for (i, vals) in ["I1 I5 N N N", "I2 N I45000 N N", "I3 N N I5 N", "I4 N N N I0", "I5 I10 I40000 I5 I1", "I6 N N N N", "I7 I1 N N N"].iter().enumerate() {
+                    out.req("empty_range", format!("insert {t} 1 5 {vals}"));
+                    let _ = i;
+                }
+                for (c, v) in [("V", "I3"), ("W", "I45000"), ("X", "I5"), ("Y", "I-1"), ("V", "N")] {
+                    out.req("empty_range", format!("update {t} 1 {} {v} -", hex_of_str(c)));
+                }
+                out.req("snapshot", "snapshot".into());
+            };
+            out.req("new", "new 0".into());
+            out.req("create_table", format!("create_table {} {}", hex_of_str("R"), cols.iter().map(|c| c.tok()).collect::<Vec<_>>().join(" ")));
+            battery(out);
+            out.req("reopen", "reopen flush".into());
+            battery(out);
+            // and in a file of another writer
+            let t = EncTable { name: "R".into(), cols: cols.clone(), rows: vec![vec![V::Int(0), V::Null, V::Null, V::Int(5), V::Null]] };
+            let layout = EncLayout { long_refs: false, cp_id: 65001, filler: vec![], overcount: 0, duplicate: false, with_validation: true, reverse_rows: false, int16_size: 2 };
+            let mut e = encode_db(&layout, &[t]);
+            e.push(c09_bases()[0].iter().find(|(n, _)| n.starts_with('\u{5}')).unwrap().clone());
+            out.req("load", format!("load 0 {}", entries_tok(&e)));
+            battery(out);
+        }
+        "C11" => {
+            // streams beyond the 8 KiB the container buffers, handed over in vectored writes (even
+            // lengths) and in one piece (odd lengths), overwritten shorter and longer
+            out.req("new", "new 0".into());
+            for (i, len) in [8190usize, 8192, 8194, 8209, 9000, 16400, 20001, 24578, 4, 6].iter().enumerate() {
+                let data: String = (0..*len).map(|k| format!("{:02x}", (k * 7 + i) % 251)).collect();
+                let name = hex_of_str(&format!("Big.{}", i % 3));
+                out.req("big_stream", format!("stream_write {name} {data}"));
+                out.req("big_stream", format!("stream_read {name}"));
+                if i % 3 == 2 {
+                    out.req("snapshot", "snapshot".into());
+                    out.req("reopen", format!("reopen {}", crate::hist::CLOSE_MODES[i % 3]));
+                    out.req("snapshot", "snapshot".into());
+                }
+            }
+            out.req("snapshot", "snapshot".into());
+        }
+        "C17" => {
+            for codes in ["1033,1033,3084", "9,9", "0,0,0", "1033,3084,1033", "65535,65535", "1033,1033", "1,2,2,3,3,3", "1024,1024,1033"] {
+                out.req("langs_value", format!("langs_value {codes}"));
+            }
+        }
+        "C20" => {
+            // texts too long for their column whose 256th byte falls inside a character: refused with
+            // an error (the message is formatted from the value), never a panic
+            out.req("new", "new 0".into());
+            let t = hex_of_str("Lim");
+            out.req("create_table", format!("create_table {t} {}:i16:K:-:-:-:- {}:s100:N:-:-:-:- {}:s0:N:-:-:-:-", hex_of_str("K"), hex_of_str("V"), hex_of_str("U")));
+            let mut key = 0;
+            for ch in ["\u{e9}", "\u{416}", "\u{65e5}", "\u{1f600}", "a"] {
+                for lead in 0..4usize {
+                    for n in [100usize, 101, 255, 256, 300] {
+                        let text = format!("{}{}", "x".repeat(lead), ch.repeat(n - lead.min(n)));
+                        key += 1;
+                        out.req("long_value", format!("insert {t} 1 3 I{key} S{} N", hex_of_str(&text)));
+                        if n >= 255 && lead < 2 {
+                            let mut c = ColDef::new("E", CT::Str(0));
+                            c.nullable = true;
+                            c.enums = vec![text.clone(), "b".into()];
+                            let mut k = ColDef::new("K", CT::I16);
+                            k.key = true;
+                            out.req("long_enum", format!("create_table {} {} {}", hex_of_str(&format!("En{key}")), k.tok(), c.tok()));
+                            let mut f = ColDef::new("F", CT::Str(0));
+                            f.nullable = true;
+                            f.fk = Some((text.clone(), 1));
+                            out.req("long_fk", format!("create_table {} {} {}", hex_of_str(&format!("Fk{key}")), k.tok(), f.tok()));
+                        }
+                    }
+                }
+            }
+            out.req("snapshot", "snapshot".into());
+            out.req("reopen", "reopen into_inner".into());
+            out.req("snapshot", "snapshot".into());
+        }
+        "C06" => {
+            // column names that look like qualified names
+            out.req("new", "new 0".into());
+            let mut k = ColDef::new("Parent", CT::I16);
+            k.key = true;
+            k.range = Some((0, 9));
+            let mut q = ColDef::new("Dir.Parent", CT::Str(0));
+            q.nullable = true;
+            q.cat = Some("Formatted");
+            q.enums = vec!["up".into(), "down".into()];
+            out.req("create_table", format!("create_table {} {} {}", hex_of_str("Dir"), k.tok(), q.tok()));
+            let mut l = ColDef::new("Feature.Level", CT::I32);
+            l.key = true;
+            out.req("create_table", format!("create_table {} {}", hex_of_str("Feature"), l.tok()));
+            out.req("insert", format!("insert {} 1 2 I1 S{}", hex_of_str("Dir"), hex_of_str("up")));
+            out.req("qualified_name", format!("select SEL 1 {} - T {}", hex_of_str("Dir.Parent"), hex_of_str("Dir")));
+            out.req("qualified_name", format!("select SEL 2 {} {} - T {}", hex_of_str("Parent"), hex_of_str("Dir.Parent"), hex_of_str("Dir")));
+            out.req("qualified_name", format!("update {} 1 {} S{} eq C{} I1", hex_of_str("Dir"), hex_of_str("Dir.Parent"), hex_of_str("down"), hex_of_str("Parent")));
+            out.req("snapshot", "snapshot".into());
+            out.req("reopen", "reopen flush".into());
+            out.req("snapshot", "snapshot".into());
+        }
+        _ => {}
     }
 }
 
@@ -2816,6 +3051,19 @@ fn gen_foreign_edit_sessions(out: &mut Out, n: usize) {
             out.req("snapshot", "snapshot".into());
             let cname = format!("c{}", "n".repeat(len - 1));
             out.req("foreign_long_name", format!("create_table {} 4b:i16:K:-:-:-:- {}:s8:N:-:-:-:-", hex_of_str(&format!("W{ti}")), hex_of_str(&cname)));
+            out.req("snapshot", "snapshot".into());
+        }
+        // a column of every category: the names the library writes into `_Validation` are the ones
+        // this file's own `_Validation` lists as permitted
+        if case % 2 == 0 {
+            for (ci, cat) in CATEGORIES.iter().enumerate() {
+                let mut kk = ColDef::new("K", CT::I16);
+                kk.key = true;
+                let mut vv = ColDef::new("V", CT::Str(38));
+                vv.nullable = true;
+                vv.cat = Some(cat.0);
+                out.req("foreign_category", format!("create_table {} {} {}", hex_of_str(&format!("Cat{ci}")), kk.tok(), vv.tok()));
+            }
             out.req("snapshot", "snapshot".into());
         }
         out.req("reopen", format!("reopen {}", crate::hist::CLOSE_MODES[(case + 1) % 3]));
